@@ -3,6 +3,7 @@ import Monorail.Spec.C03
 import Monorail.Spec.C10
 import Monorail.Model.Kahn
 import Monorail.Model.Dfs
+import Monorail.Model.Select
 open Lean
 namespace Monorail.Driver
 
@@ -82,5 +83,26 @@ def handleGroups (j : Json) : Except String Json := do
       let (v, w) ← judgeGroups g roots obsN
       pure (Json.mkObj (base ++ [("oracle", Json.str v), ("why", Json.str w)]))
   | _ => pure (Json.mkObj (base ++ [("oracle", Json.str "none")]))
+
+/-- request {"op":"select","targets":[..],"mode":"changed"|"named"|"deps","names":[labels]}
+    the target groups `handle_run` selects (`Model/Select.lean`), as labels, through the concrete
+    abstract layering for the graph part (order inside a group is not compared) -/
+def handleSelect (j : Json) : Except String Json := do
+  let cfg ← configOf j
+  let mode ← getStr j "mode"
+  let names ← pathsOf (← getArr j "names")
+  let idx := names.filterMap (indexOf? cfg)
+  if names.any (fun l => (indexOf? cfg l).isNone) then
+    pure (Json.mkObj [("model", Json.mkObj [("err", Json.str "unknown_target")])])
+  else
+    let g : Graph := ⟨adjacency cfg⟩
+    let sel : Selection := if mode == "changed" then .changed idx else if mode == "named" then .named idx else .deps idx
+    let labels (gs : List (List Nat)) : List (List Path) := gs.map (fun grp => grp.filterMap (fun i => (cfg[i]?).map (·.path)))
+    let model : Json :=
+      if hasDupPath cfg then Json.mkObj [("err", Json.str "dup_label")]
+      else match selectGroups g sel with
+        | .ok gs => Json.mkObj [("ok", jPathLists (labels gs))]
+        | .error _ => Json.mkObj [("err", Json.str "cycle")]
+    pure (Json.mkObj [("model", model), ("wf", Json.bool (wfDB cfg))])
 
 end Monorail.Driver
